@@ -435,6 +435,132 @@ fn many_name(i: usize) -> String {
     format!("dir{}/{}-file-{i}", i % 17, "n".repeat(190))
 }
 
+/// Engine "flushdist" (C14): DISTANCES between flushes at the constants of the build (meant for production constants,
+/// where the compressor has thresholds of its own: it emits by itself after about a megabyte of poorly compressible
+/// input, keeps a backlog, cuts meta-blocks).  For each distance d of a sweep: a small file, flush, a file of d bytes,
+/// flush; the bytes at the destination when the second flush returned are repaired (unauthenticated mode when
+/// encryption is on) and must give back both files completely.
+/// args: out.json stacks(comma) lo hi step
+pub fn main_flushdist(args: &[String]) {
+    quiet_panics();
+    let stacks: Vec<&str> = args[1].split(',').collect();
+    let (lo, hi, step): (usize, usize, usize) = (args[2].parse().unwrap(), args[3].parse().unwrap(), args[4].parse().unwrap());
+    let mut viol: Vec<Value> = vec![];
+    let mut n = 0u64;
+    const B64: &[u8; 64] = b"ABCDEFGHIJKLMNOPQRSTUVWXYZabcdefghijklmnopqrstuvwxyz0123456789+/";
+    for st in &stacks {
+        let mut d = lo;
+        let mut di = 0usize;
+        while d <= hi {
+            for text in [true, false] {
+                let par = Par::from_json(&json!({"stack": st, "seed": 40 + di as u64, "level": if di % 3 == 2 { 3 } else { 5 }, "entropy": "high"}));
+                let mut body = crate::cells::content(par.seed, 1, d, crate::cells::Entropy::High);
+                if text {
+                    // base64 text: 6 bits of entropy per byte (mail bodies, PEM, JSON with blobs)
+                    for b in &mut body {
+                        *b = B64[(*b & 63) as usize];
+                    }
+                }
+                let head = crate::cells::content(par.seed, 0, 20_000, crate::cells::Entropy::High);
+                let sink = SharedSink::new();
+                let r = guarded(|| -> Result<Vec<u8>, String> {
+                    let mut w = ArchiveWriter::from_config(sink.clone(), archive::writer_config(&par)).map_err(|e| format!("{e:?}"))?;
+                    w.add_file("head", head.len() as u64, &head[..]).map_err(|e| format!("{e:?}"))?;
+                    w.flush().map_err(|e| e.to_string())?;
+                    w.add_file("body", body.len() as u64, &body[..]).map_err(|e| format!("{e:?}"))?;
+                    w.flush().map_err(|e| e.to_string())?;
+                    Ok(sink.snapshot())
+                });
+                n += 1;
+                let at_flush = match r {
+                    Ok(Ok(b)) => b,
+                    Ok(Err(e)) => { viol.push(json!({"kind": "valid-call-refused", "stack": st, "d": d, "text": text, "detail": e})); continue; }
+                    Err(p) => { viol.push(json!({"kind": "panic", "stack": st, "d": d, "text": text, "detail": p})); continue; }
+                };
+                let mut orig: HashMap<String, (u64, Vec<u8>)> = HashMap::new();
+                orig.insert("head".into(), (0, head.clone()));
+                orig.insert("body".into(), (1, body.clone()));
+                let rep = repair_once(&par, &at_flush[..], par.stack.enc, &orig);
+                let len_of = |name: &str| rep["files"].as_array().unwrap().iter().find(|f| f["n"] == name)
+                    .map(|f| (f["len"].as_u64().unwrap() as usize, f["bad"].as_i64().unwrap()));
+                let ok = len_of("head") == Some((head.len(), -1)) && len_of("body") == Some((d, -1));
+                if !ok {
+                    viol.push(json!({"kind": "flushed-not-recoverable", "stack": st, "d": d, "text": text, "level": par.level,
+                                     "destination_bytes": at_flush.len(), "status": rep["st"], "head": format!("{:?}", len_of("head")),
+                                     "body": format!("{:?}", len_of("body"))}));
+                }
+            }
+            d += step;
+            di += 1;
+        }
+    }
+    write_json(&args[0], &json!({"runs": n, "violations": viol,
+        "constants": mla::verif::constants().iter().map(|(k, v)| (k.to_string(), json!(v))).collect::<serde_json::Map<_, _>>()}));
+}
+
+/// Engine "skipscan" (C10): ACCESS PATTERN over many small files at the constants of the build (meant for production
+/// constants): every other file is read (the reader hops over the ones in between), then the others in reverse order,
+/// then some again; each result is compared with what a reader opened for that file alone returns.
+/// args: out.json N stacks(comma)
+pub fn main_skipscan(args: &[String]) {
+    quiet_panics();
+    let n: usize = args[1].parse().unwrap();
+    let mut viol: Vec<Value> = vec![];
+    let mut reads = 0u64;
+    for st in args[2].split(',') {
+        for ent in ["text", "high"] {
+            let par = Par::from_json(&json!({"stack": st, "seed": 23, "level": 5, "entropy": ent}));
+            let content = |i: usize| -> Vec<u8> { archive::file_bytes(&par, (i % 251) as u64, i % 13, 300 + (i * 7919) % 3500) };
+            let name = |i: usize| format!("mail/{i:05}.eml");
+            let mut w = ArchiveWriter::from_config(Vec::new(), archive::writer_config(&par)).expect("writer");
+            for i in 0..n {
+                let c = content(i);
+                w.add_file(&name(i), c.len() as u64, &c[..]).expect("add");
+            }
+            w.finalize().expect("finalize");
+            let bytes = w.into_raw();
+            let r = guarded(|| -> Result<(), (String, String)> {
+                let mut rd = ArchiveReader::from_config(Cursor::new(&bytes[..]), archive::reader_config(&par)).map_err(|e| ("open-error".to_string(), format!("{e:?}")))?;
+                let order: Vec<usize> = (0..n).step_by(2).chain((0..n).rev().filter(|i| i % 12 == 1)).chain((0..n).step_by(5)).collect();
+                for (k, i) in order.iter().enumerate() {
+                    let got = (|| -> Result<Vec<u8>, String> {
+                        let mut f = rd.get_file(name(*i)).map_err(|e| format!("{e:?}"))?.ok_or("not found")?;
+                        let mut v = vec![];
+                        f.data.read_to_end(&mut v).map_err(|e| e.to_string())?;
+                        Ok(v)
+                    })();
+                    reads += 1;
+                    // "the same as reading that file alone right after opening the archive": a fresh reader, every 97th
+                    // file and whenever the result is not the content that was added
+                    let alone = if got.as_ref().ok() != Some(&content(*i)) || k % 97 == 0 {
+                        let mut fresh = ArchiveReader::from_config(Cursor::new(&bytes[..]), archive::reader_config(&par)).map_err(|e| ("open-error".to_string(), format!("{e:?}")))?;
+                        let mut v = vec![];
+                        let r = fresh.get_file(name(*i)).map_err(|e| format!("{e:?}")).and_then(|f| f.ok_or("not found".to_string()))
+                            .and_then(|mut f| f.data.read_to_end(&mut v).map_err(|e| e.to_string()));
+                        Some(r.map(|_| v))
+                    } else {
+                        None
+                    };
+                    if let Some(alone) = alone {
+                        if alone != got {
+                            return Err(("history-dependent-read".to_string(), format!("file #{i} ({}) as access #{k} of a skip-scan: {:?}; alone: {:?}", name(*i),
+                                got.as_ref().map(Vec::len), alone.as_ref().map(Vec::len))));
+                        }
+                    }
+                }
+                Ok(())
+            });
+            match r {
+                Ok(Ok(())) => {}
+                Ok(Err((kind, detail))) => viol.push(json!({"kind": kind, "stack": st, "entropy": ent, "detail": detail})),
+                Err(p) => viol.push(json!({"kind": "panic", "stack": st, "entropy": ent, "detail": p})),
+            }
+        }
+    }
+    write_json(&args[0], &json!({"reads": reads, "violations": viol,
+        "constants": mla::verif::constants().iter().map(|(k, v)| (k.to_string(), json!(v))).collect::<serde_json::Map<_, _>>()}));
+}
+
 /// Engine "many": COUNTS of files rather than sizes (thousands of small files, added one after another): the
 /// round trip (C01) and the repair of the intact archive and of one cut (C05, C02).  args: mode out.json N
 pub fn main_many(args: &[String]) {
